@@ -560,6 +560,9 @@ class DictT(AdtT):
         lem("has_set", [a, k, v, k2], has(st(a, k, v), k2) == z3.Or(k2 == k, has(a, k2)), [has(st(a, k, v), k2)], a)
         lem("get_set_eq", [a, k, v], get(st(a, k, v), k) == v, [get(st(a, k, v), k)], a)
         lem("get_set_ne", [a, k, v, k2], z3.Implies(k2 != k, get(st(a, k, v), k2) == get(a, k2)), [get(st(a, k, v), k2)], a)
+        v2 = z3.Const(n + "_vv2", V)
+        lem("set_set", [a, k, v, v2], st(st(a, k, v), k, v2) == st(a, k, v2), [st(st(a, k, v), k, v2)], a)
+        lem("set_get_same", [a, k], z3.Implies(has(a, k), st(a, k, get(a, k)) == a), [st(a, k, get(a, k))], a)
         lem("disj_set", [a, b, k, v], z3.Implies(z3.And(disj(a, b), z3.Not(has(b, k))), disj(st(a, k, v), b)),
             [disj(st(a, k, v), b)], b)
 
